@@ -80,8 +80,9 @@ class Index:
                 s = ((p.get('status') or {}).get('kopf') or {}).get('last-handled-configuration') if isinstance(p.get('status'), dict) else None
                 if (self.sv.in_annotations and a) or (not self.sv.in_annotations and s) or (self.sv.storage == 'smart' and (a or s)):
                     val = (a or s).strip()
-                    if out and out[-1][1] == val and not any(
+                    if out and out[-1][1] == val and out[-1][0].client == r.client and not any(
                             e['k'] in ('call', 'ret') and e.get('uid') == uid and e.get('kind') in ('create', 'update', 'delete', 'resume', 'field', 'sub')
+                            and e.get('inc') == r.client      # (the zombie tasks of a killed predecessor are not part of this patching)
                             and out[-1][0].g < e['g'] < r.g for e in self.w.events):
                         continue   # the second half (main + /status) of one and the same patching
                     out.append((r, val))
@@ -196,13 +197,15 @@ def oracle_progress(w: World, ix: Index | None = None) -> list[dict[str, Any]]:
             # take the reason reported to the handlers invoked in this window; if none was invoked, every cause
             # consistent with some view between the last processed and the current version is a candidate.
             window_calls = [c for c in ix.calls if c['uid'] == uid and c['kind'] in CHANGING and prev_g < c['g'] <= cw.g and c.get('reason')
-                            and not c.get('post_mortem')]      # (what a killed incarnation's zombie tasks still do in the simulation does not count)
+                            and not c.get('post_mortem')       # (what a killed incarnation's zombie tasks still do in the simulation does not count)
+                            and c['inc'] == cw.client]         # the cause as seen by the incarnation that closes the cycle (a successor may see a deletion)
             if window_calls:
                 candidates = [window_calls[-1]['reason']]
             else:
                 candidates = ['create' if sv.diffbase(before) is None else 'update']
-                if before is not None and before['metadata'].get('deletionTimestamp'):
-                    candidates.append('delete')
+            # a deletion supersedes whatever cycle was open: the pass that sees the mark handles (and closes) the deletion instead
+            if before is not None and before['metadata'].get('deletionTimestamp') and 'delete' not in candidates:
+                candidates.append('delete')
             done = {h for g, h, o in finals if prev_g < g <= cw.g}
             # handlers finished earlier in this cycle and still recorded as such on the server also count
             for h in list(ix.specs):
@@ -231,6 +234,18 @@ def oracle_progress(w: World, ix: Index | None = None) -> list[dict[str, Any]]:
                         viol.append({'mech': 'double-success', 'msg': f"{uid}: {h} succeeded {n} times within one cycle (no kills, no lost responses)",
                                      'witness': {'finals': [f for f in finals if f[1] == h]}})
             prev_g = cw.g
+        # a deletion is one cycle from the mark to the release (however many re-checks the exiting daemons take): at most one success each
+        if clean:
+            marked = min((v['g'] for v in w.history[uid] if v['body']['metadata'].get('deletionTimestamp')), default=None)
+            if marked is not None:
+                dsucc: dict[str, int] = {}
+                for g, h, o in finals:
+                    if g > marked and o == 'ok' and h.split('/')[0] in by_kind.get('delete', []):
+                        dsucc[h] = dsucc.get(h, 0) + 1
+                for h, n in dsucc.items():
+                    if n > 1:
+                        viol.append({'mech': 'double-success', 'msg': f"{uid}: {h} succeeded {n} times within one deletion (no kills, no lost responses)",
+                                     'witness': {'finals': [f for f in finals if f[1] == h]}})
         for fr in ix.finalizer_removals(uid):
             before = w.body_at(uid, fr.prev_rv)
             if before is None or not before['metadata'].get('deletionTimestamp'):
